@@ -226,6 +226,9 @@ pub struct PairSpec {
     /// which of the two trust anchor certificates expires between the runs
     /// (None: both live for a year)
     short: Option<usize>,
+    /// the short-lived certificate is replaced upstream by a long-lived
+    /// one for the same key, and downloaded, before it expires
+    renew: bool,
 }
 
 const PAIR_SHORT_LIFE: i64 = 3;
@@ -247,7 +250,8 @@ fn pair_tree(host: &str, c: &PairSpec) -> TreeSpec {
 }
 
 /// Run 1: both downloads fine. (With a short-lived certificate: wait, then
-/// run 2 with everything still published.) Last run: no trust anchor
+/// run 2 with everything still published; or, with `renew`, run 2 at once
+/// against a renewed long-lived certificate and wait afterwards.) Last run: no trust anchor
 /// certificate can be downloaded. Every TAL whose stored certificate is
 /// still valid must contribute in the last run.
 fn run_pair(gen: &Gen, dir: std::path::PathBuf, idx: usize, c: &PairSpec) -> Result<String, (String, String)> {
@@ -267,13 +271,14 @@ fn run_pair(gen: &Gen, dir: std::path::PathBuf, idx: usize, c: &PairSpec) -> Res
     let mut config = case.config();
     config.disable_rrdp = false;
     let reachable = Arc::new(Mutex::new(true));
+    let served_certs = Arc::new(Mutex::new(image.ta_certs.clone()));
     let _g = {
-        let (reachable, certs, host2) = (reachable.clone(), image.ta_certs.clone(), host.clone());
+        let (reachable, certs, host2) = (reachable.clone(), served_certs.clone(), host.clone());
         rrdpsrv::serve_host(&host, Arc::new(move |uri, _etag, _lm| {
             if !*reachable.lock().unwrap() { return Some(HttpAnswer::Unreachable) }
             for (tal, name) in [("alpha", "taa"), ("beta", "tab")] {
                 if uri == format!("https://{host2}/ta/{name}.cer") {
-                    return certs.get(tal).map(|b| HttpAnswer::Response(rrdpsrv::resp(200, vec![], b.clone())))
+                    return certs.lock().unwrap().get(tal).map(|b| HttpAnswer::Response(rrdpsrv::resp(200, vec![], b.clone())))
                 }
             }
             Some(HttpAnswer::Response(rrdpsrv::resp(404, vec![], Vec::new())))
@@ -298,8 +303,25 @@ fn run_pair(gen: &Gen, dir: std::path::PathBuf, idx: usize, c: &PairSpec) -> Res
         Ok(())
     };
     step("first run, both downloads fine", [true, true])?;
-    let live = [c.short != Some(0), c.short != Some(1)];
-    if c.short.is_some() {
+    let live = if c.renew { [true, true] } else { [c.short != Some(0), c.short != Some(1)] };
+    if c.renew {
+        // the same tree with both certificates living for a year
+        let renewed = Builder::new(gen, Stale::Reject).build(&pair_tree(&host, &PairSpec { https: c.https, short: None, renew: false }));
+        for (tal, cert) in &renewed.ta_certs {
+            if image.ta_certs.get(tal).map(|old| old.len()) != Some(cert.len()) {
+                return Err(("harness".into(), format!("the renewed certificate of {tal} differs in length from the first one")))
+            }
+        }
+        if renewed.ta_certs == image.ta_certs {
+            return Err(("harness".into(), "the renewed certificates are the first ones".into()))
+        }
+        *served_certs.lock().unwrap() = renewed.ta_certs.clone();
+        case.publish(&renewed);
+        step("second run, the short-lived certificate has been renewed upstream", [true, true])?;
+        let wait = std::time::Duration::from_secs(PAIR_SHORT_LIFE as u64 + 1).saturating_sub(built.elapsed());
+        std::thread::sleep(wait);
+    }
+    else if c.short.is_some() {
         let wait = std::time::Duration::from_secs(PAIR_SHORT_LIFE as u64 + 1).saturating_sub(built.elapsed());
         std::thread::sleep(wait);
         step("second run after one certificate expired", live)?;
@@ -315,7 +337,10 @@ fn run_pair(gen: &Gen, dir: std::path::PathBuf, idx: usize, c: &PairSpec) -> Res
 
 fn pair_cases() -> Vec<PairSpec> {
     let mut res = Vec::new();
-    for https in [false, true] { for short in [None, Some(0), Some(1)] { res.push(PairSpec { https, short }); } }
+    for https in [false, true] { for short in [None, Some(0), Some(1)] { for renew in [false, true] {
+        if renew && short.is_none() { continue }
+        res.push(PairSpec { https, short, renew });
+    }}}
     res
 }
 
@@ -399,10 +424,11 @@ pub fn run(ctx: &Ctx) -> Report {
         rep.nontrivial += 1;
         match r {
             Ok(o) => rep.outcome(format!("pair:{o}")),
+            Err((class, msg)) if class == "harness" => { eprintln!("machinery error: {msg}"); std::process::exit(2) }
             Err((class, msg)) => {
                 rep.outcome(format!("VIOLATION:{class}"));
                 rep.violation(format!("ta:{class}:pair:{}:{}", if c.https { "https" } else { "rsync" }, if c.short.is_some() { "one-expires" } else { "both-live" }), msg,
-                    json!({"pair": true, "https": c.https, "short": c.short}));
+                    json!({"pair": true, "https": c.https, "short": c.short, "renew": c.renew}));
             }
         }
     }
@@ -415,7 +441,7 @@ pub fn replay(ctx: &Ctx, v: &Value) -> Report {
     let gen = Gen::load();
     let mut rep = Report::new("fault_enumeration");
     if v["pair"].as_bool() == Some(true) {
-        let c = PairSpec { https: v["https"].as_bool().unwrap_or(false), short: v["short"].as_u64().map(|x| x as usize) };
+        let c = PairSpec { https: v["https"].as_bool().unwrap_or(false), short: v["short"].as_u64().map(|x| x as usize), renew: v["renew"].as_bool().unwrap_or(false) };
         let r = run_pair(&gen, ctx.scratch.join("replay"), 99998, &c);
         println!("{c:?}: {r:?}");
         if let Err((class, msg)) = r { rep.violation(format!("ta:{class}:pair"), msg, v.clone()) }
